@@ -43,9 +43,16 @@ def maxLengthValid (r : Roa) : Bool :=
 /-- `RoaPayload::set_explicit_max_length` / `into_explicit_max_length`. -/
 def setExplicitMaxLength (r : Roa) : Roa := { r with maxLen := some r.effMax }
 
-/-- `RoaPayload::nr_of_specific_prefixes`: `1u128 << (max_len - pfx_len)` with `u8`
-subtraction. -/
-def nrOfSpecificPrefixes (r : Roa) : Option Nat := do
+/-- `RoaPayload::nr_of_specific_prefixes` (after fix da59be0d):
+`1u128.checked_shl(u32::from(max_len.saturating_sub(pfx_len))).unwrap_or(u128::MAX)`.
+Natural-number subtraction saturates like `saturating_sub`.  The result type stays `Option`
+(`none` = panic) so that the callers' totality is a theorem and not a convention. -/
+def nrOfSpecificPrefixes (r : Roa) : Option Nat :=
+  some ((checkedShl 128 1 (r.effMax - r.pfx.len)).getD (2 ^ 128 - 1))
+
+/-- COUNTER-MODEL – what the pinned tree (before fix da59be0d) computed:
+`1u128 << (max_len - pfx_len)` with `u8` subtraction; both operations can overflow. -/
+def nrOfSpecificPrefixesPinned (r : Roa) : Option Nat := do
   let d ← checkedSub r.effMax r.pfx.len
   checkedShl 128 1 d
 
